@@ -13,6 +13,17 @@ def errName : Err → String
 
 def wcStep (s : St) (o : OpLine) : St × String :=
   match o.name with
+  -- `cput`: k objects a, a+1, …, each put for the first time by several concurrent writers; every interleaving of
+  -- their steps accounts an object once (the file write is idempotent, `counters.Add` replaces), i.e. the op
+  -- behaves like k sequential puts (the first refusal is reported)
+  | "cput" =>
+    match o.nat? "a", o.nats? "lens" with
+    | some a, some lens =>
+      let r := lens.foldl (fun (acc : St × Err × Nat) n =>
+        let (s', e) := put acc.1 acc.2.2 n
+        (s', (if acc.2.1 != .ok then acc.2.1 else e), acc.2.2 + 1)) (s, .ok, a)
+      (r.1, "=> " ++ errName r.2.1 ++ " " ++ wcObs r.1)
+    | _, _ => (s, "=> bad-op")
   | "put" =>
     match o.nat? "a", o.nat? "len" with
     | some a, some n => let (s', e) := put s a n; (s', "=> " ++ errName e ++ " " ++ wcObs s')
